@@ -332,6 +332,7 @@ func c04(c *Ctx) {
 	c04ReporterQueues(c, 3, "services/smtp", "services/ftp")
 	c04BodyConsumed(c)
 	c04PerMessageState(c)
+	readLinePrefixHonoured(c, "readline-prefix-honoured", "one long command is reported and executed as several", "services")
 	bufferNotShrunkAcrossIterations(c, "read-buffer-full-size-per-request", "a pipelined request is reported with a body cut to the length of an earlier request's body", "services")
 	c04BorrowedLineNotUsedAfterNextRead(c, "services")
 	// a transfer that spans several datagrams is collected per peer (shared with C03): keyed by less than the peer's address,
